@@ -13,23 +13,56 @@ class C13(Prop):
     n_thorough = 60
     search_factor = 5
     ready = True
-    rule = ("translator tools/gen/coredeps (go/ast over core.go, conf.go) regenerates the component table; the driver starts "
-            "a real Core with every server on scratch ports and performs real reloads, each changing one group of global "
-            "parameters (corpus of past findings first, then a seeded selection; thorough: all groups), recording for every "
-            "running component whether it was recreated (pointer identity). Non-trivial = a reload that changed something")
+    rule = ("translator tools/gen/coredeps (go/ast over core.go, conf.go) regenerates the component table (guards as boolean "
+            "expressions, constructor bindings, in-place reload statements with the pushed argument checked); the driver starts "
+            "a real Core with every server on scratch ports and performs real reloadConf calls: single groups of global parameters "
+            "(corpus of past findings and the in-place reloads - internal users, path confs, record cleaner off/on - first, "
+            "then a seeded selection), histories changing several groups at once with servers switched off and on again, and "
+            "(thorough, and in the search run after a broken tie) every global parameter the table mentions, one at a time. "
+            "After New and after every reload it records, in-package, which instance stands in Core for every component, whether "
+            "each running component holds the new configuration's value for every bound constructor key (about 200 per "
+            "observation, read from the component's own fields; for the internal users also by calling Authenticate), and "
+            "whether each held reference is the current instance. Non-trivial = a history that changed something")
     trusted_base = ["Coq 8.16.1 kernel + VM", "translator tools/gen/coredeps (validated by the real reloads: the generated "
-                    "predicates must predict which components a real Core recreates)", "in-package driver zz_verif_c13_test.go"]
+                    "predicates, guards and bindings must predict what a real Core does)",
+                    "in-package driver zz_verif_c13_test.go (reads the components' fields by reflection; its own table of "
+                    "which flags enable which component)",
+                    "oracle: truth of the guard atoms (EncryptionNo..., atLeastOneRecordDeleteAfter) on a configuration, "
+                    "evaluated by the driver; in the theorems a function of the field's value (atomv)"]
     assumptions = ["two loads of a configuration never share a pointee unless its value is equal (ptr_wf)",
-                   "in-place reloads (ReloadPathConfs, ReloadInternalUsers) apply the new value: covered by C15 / not observed here"]
+                   "a failed reload (createResources error) ends the Core: only successful reloads are modelled",
+                   "per-path parameters inside Paths are C15's subject: here the path map as a whole must reach the "
+                   "path manager, the playback server and the record cleaner"]
     manifest = dict(
         text="The close*/create tables are translated from core.go on every run; Coq proves for EVERY table and EVERY pair of "
-             "configurations that three decidable table conditions (evaluated by vm_compute on the generated table) imply: a "
+             "configurations that decidable table conditions (evaluated by vm_compute on the generated table) imply: a "
              "changed parameter closes or reloads every component built from it, dependents of a closed component are closed, "
-             "and nothing is closed without a changed parameter underneath; plus that Go's straight-line evaluation computes "
-             "those predicates. Real reloads of a real Core validate the translator and give concrete replays.",
-        note="Trusted: Coq kernel+VM, the go/ast translator (validated by real reloads), pointer identity as 'recreated'. "
-             "Per-path parameters are pushed in place (ReloadPathConfs) and are C15's subject.",
-        technique="translator (Go -> Gallina table) + Coq proof over all tables/configuration pairs + vm_compute table check + real-Core reload correspondence")
+             "nothing is closed without a changed parameter underneath, Go's straight-line evaluation computes those "
+             "predicates; and, on a model of reloadConf itself (closeResources with its in-place pushes, conf.Store, "
+             "createResources), that after ANY history of successful reloads every running component holds the current "
+             "value of every parameter it is built from, stands in Core exactly when its guard holds, and holds the current "
+             "instance of every component handed to it; unchanged components keep their instance. Real reloads of a real "
+             "Core (single groups, multi-group histories, servers off and on, every parameter in the thorough tier) validate "
+             "the translator and observe the applied values inside the running components.",
+        note="Trusted: Coq kernel+VM, the go/ast translator (validated by real reloads), pointer identity as 'recreated', "
+             "reflection reads of component fields. Per-path parameters are pushed in place (ReloadPathConfs) and are C15's subject.",
+        technique="translator (Go -> Gallina table) + Coq proof over all tables/configuration pairs/histories + vm_compute table check + real-Core reload correspondence")
+
+    def extra_checks(self, ctx, cases):
+        # the driver must really have compared the constructor bindings (a silent loss of the observation is a broken tie)
+        out = []
+        path = None
+        for f in sorted(os.listdir(ctx.workdir)):
+            if f.startswith("driver_0_") and f.endswith(".jsonl"):
+                path = os.path.join(ctx.workdir, f)
+        best = 0
+        if path:
+            for r in vlib.read_jsonl(path):
+                if "summary" in r:
+                    best = max(best, int(r["summary"].get("extra", {}).get("bindings_compared_per_observation", 0)))
+        if cases and best < 150:
+            out.append(dict(kind="driver", what="the driver compared only %d constructor bindings per observation (>= 150 expected)" % best))
+        return out
 
     def generate(self, ctx):
         out = os.path.join(vlib.COQ, "gen", "C13_CoreDeps.v")
